@@ -342,6 +342,44 @@ example :
       ((runHist current w0 h).objs.map fun o => o.mol.ids) = [[1, 2, 3], [7, 2, 3, 8, 9, 10]] := by
   decide +kernel
 
+/-! ## returned objects are new objects; numbering -/
+
+/-- regenerated scan of every method of every class in `MoleculeContainer.__mro__`: the object itself (`return self`, a
+collection containing `self`, a local bound to `self`) is handed out only by the documented in-place API -/
+theorem only_inplace_api_returns_self : ∀ m ∈ returnsSelf, m ∈ inPlaceReturners := by decide
+
+/-- regenerated: `split` is one `substructure(c, recalculate_hydrogens=False)` per connected component (so the
+correspondence may expand it), and every derived constructor (`augmented_substructure(s)`, `split`, `&`, `-`,
+`copy.copy`, `|`, `|=`) returns nothing but calls of a modelled constructor on `self` -/
+theorem derived_constructors_delegate :
+    splitPerComponent = true ∧ ∀ p ∈ derivedConstructors, p.2 ∈ ["substructure", "copy", "union"] := by decide
+
+/-- **created_is_new**: an operation that reports a created object appended exactly one object at a new index; all
+existing indices keep denoting the objects they denoted (with `copy_independent`: the source and every other object are
+unchanged unless they are the target of an in-place operation) -/
+theorem created_is_new (T : Tables) (w : World) (op : Op) (obs : List String) (j : Nat)
+    (h : (step T w op obs).created = some j) :
+    j = w.objs.length ∧ (step T w op obs).w.objs.length = w.objs.length + 1 ∧
+      ∀ i, i < w.objs.length → i ≠ op.target → (step T w op obs).w.objs[i]? = w.objs[i]? :=
+  ⟨(step_created T w op obs j h).1, (step_created T w op obs j h).2, fun i hi hne => step_frame T w op obs i hne hi⟩
+
+/-- **remap_numbers**: an accepted renumbering gives every atom exactly the number the mapping names — whatever that
+number is (0 included: `mapId` is a lookup, not a truthiness test) — keeps unmapped atoms, keeps the dict order, moves
+every neighbour key the same way, and the new numbers are pairwise different -/
+theorem remap_numbers {m m' : Mol} {mp : List (Nat × Nat)} (h : gRemap m mp = .ok m') :
+    m'.ids = m.ids.map (mapId mp) ∧
+    (∀ n v, mp.lookup n = some v → mapId mp n = v) ∧ (∀ n, mp.lookup n = none → mapId mp n = n) ∧
+    (∀ x ∈ m.ids, ∀ y ∈ m.ids, mapId mp x = mapId mp y → x = y) ∧
+    m'.adj = m.adj.map fun p => (mapId mp p.1, p.2.map fun kb => (mapId mp kb.1, kb.2)) := by
+  obtain ⟨rfl, hinj⟩ := gRemap_eq h
+  refine ⟨by simp [mapMol, Mol.ids, List.map_map, Function.comp_def], fun n v hv => by simp [mapId, hv],
+    fun n hn => by simp [mapId, hn], hinj, rfl⟩
+
+/-- non-vacuous, with the number 0: `CCO` atoms 1 2 3 renumbered 0-based, and atom 3 → 0 alone -/
+example : (gRemap demoMol [(1, 0), (2, 1), (3, 2)]).toOption.map (·.ids) = some [0, 1, 2] ∧
+    (gRemap demoMol [(3, 0)]).toOption.map (·.ids) = some [1, 2, 0] ∧
+    (gRemap demoMol [(3, 0)]).toOption.map (fun m => m.nbrs 0) = some [(2, { order := 1 })] := by decide
+
 /-! ## the stored graph is well-formed in every reachable state -/
 
 /-- today's regenerated table restores `_atoms` and `_bonds` together in every method `step` runs -/
